@@ -116,6 +116,7 @@ class Evaluator:
         self.decide = decide
         self._in_try = 0
         self.loop_log: List[dict] = []       # per executed while loop: state before, state at the end of the body, condition
+        self._unrolled: List[dict] = []      # unrolled loops over literal tables being executed (continue / break bookkeeping)
         self.opaque_kind = opaque_kind or {}
         self.opaque_calls = 0
 
@@ -700,11 +701,27 @@ class Evaluator:
             it = Tup([Tup([Const(k), v]) for k, v in it.args[0].items.items()])
         if isinstance(it, Tup) and len(it.items) <= 24 and not s.orelse:
             # a loop over a short literal table is unrolled (no loop-carried abstraction needed)
+            base = st.guard
+            exits = []                  # states that left the loop by `break`
+            alive = True
             for item in it.items:
                 self.assign(s.target, item, st, s)
-                if not self.exec_block(s.body, st):
-                    return False
-            return True
+                rec = {'depth': len(self.loops), 'frames': len(self.frames), 'continues': [], 'breaks': []}
+                self._unrolled.append(rec)
+                try:
+                    ft = self.exec_block(s.body, st)
+                finally:
+                    self._unrolled.pop()
+                exits.extend(rec['breaks'])
+                live = ([st.clone()] if ft else []) + rec['continues']
+                if not live:
+                    alive = False
+                    break
+                self._join(st, base, live)
+            if exits:
+                self._join(st, base, exits + ([st.clone()] if alive else []))
+                alive = True
+            return alive
         lid = fresh_serial()
         names, stores = self.assigned_in(s.body)
         tnames = {x.id for x in ast.walk(s.target) if isinstance(x, ast.Name)}
@@ -952,13 +969,52 @@ class Evaluator:
                 st.env[nm] = Term('loopvar', (Const(nm), Const('out')), uid=lid)
         return True
 
+    def exec_Match(self, s, st):
+        from .model import desugar_match
+        stmts = desugar_match(s)
+        if stmts is None:
+            self.unsupported(st, s, 'Match with structural patterns')
+            return True
+        return self.exec_block(stmts, st)
+
     def exec_Break(self, s, st):
+        rec = self._unrolled[-1] if self._unrolled else None
+        if rec is not None and rec['depth'] == len(self.loops) and rec['frames'] == len(self.frames):
+            rec['breaks'].append(st.clone())        # leaves an unrolled loop over a literal table: execution goes on after the loop
+            return False
         self.emit('break', st, s, env=dict(st.env))
         return False
 
     def exec_Continue(self, s, st):
+        rec = self._unrolled[-1] if self._unrolled else None
+        if rec is not None and rec['depth'] == len(self.loops) and rec['frames'] == len(self.frames):
+            rec['continues'].append(st.clone())     # unrolled loop: execution goes on with the next item
+            return False
         self.emit('continue', st, s)
         return False
+
+    def _join(self, st: State, base, states):
+        """`st` becomes the join of `states`, each reached under its guard beyond `base`"""
+        def extra(x):
+            ps = [g for g in x.guard[len(base):] if not (isinstance(g, Const) and g.v)]
+            return ps[0] if len(ps) == 1 else (P('and', *ps) if ps else Const(True))
+        acc = states[-1]
+        conds = [extra(acc)]
+        for x in reversed(states[:-1]):
+            c = extra(x)
+            conds.append(c)
+            m = x.clone()
+            self.merge(m, c, x, acc)
+            acc = m
+        st.env, st.heap, st.imports = acc.env, acc.heap, acc.imports
+        whole = any(isinstance(c, Const) and c.v for c in conds) or (len(conds) == 2 and contradicts(conds[0], conds[1]))
+        if not whole and len(conds) > 1:
+            from .truth import equivalent
+            try:
+                whole = equivalent(P('or', *conds), Const(True))[0] is True
+            except Exception:
+                whole = False
+        st.guard = tuple(base) if whole else tuple(base) + ((P('or', *conds) if len(conds) > 1 else conds[0]),)
 
     def exec_Try(self, s, st):
         mark = len(self.events)
@@ -1734,6 +1790,12 @@ class Evaluator:
                 newv = Term('mutated', (recv, Const(e.func.attr)), uid=fresh_serial(), kind=getattr(recv, 'kind', 'unknown'))
                 if isinstance(recv, Num) and recv.length is not None:
                     newv = term_as_num(newv, True, recv.kind)
+                if isinstance(recv, Tup) and recv.kind == 'list' and not self.loops and len(pos) == 1 and not kw:
+                    # straight-line code (or an unrolled loop over a literal table) growing a literal list
+                    if e.func.attr == 'append':
+                        newv = Tup(list(recv.items) + [pos[0]], 'list')
+                    elif e.func.attr == 'extend' and isinstance(pos[0], Tup):
+                        newv = Tup(list(recv.items) + list(pos[0].items), 'list')
                 self.rebind(e.func.value, newv, st)
         return res
 
